@@ -62,7 +62,12 @@ func (pp *PushPromise) Deserialize(fr *FrameHeader) error {
 }
 
 func (pp *PushPromise) Serialize(fr *FrameHeader) {
-	fr.payload = fr.payload[:0]
+	if pp.ended {
+		fr.SetFlags(
+			fr.Flags().Add(FlagEndHeaders))
+	}
+
+	fr.payload = http2utils.AppendUint32Bytes(fr.payload[:0], pp.stream)
 
 	// if pp.pad {
 	// 	fr.Flags().Add(FlagPadded)
